@@ -53,7 +53,18 @@ def gen_rpms_op(rng):
 UIDS = ["mod:stream", "mod:stream:123", "mod:stream:123:ctx", "nodejs:18:920240101:f2a", "a/b/mod:s", "perl-DBI:1.6"]
 UIDS_BAD = ["mod", "", ":s", "m::v", "m:s:v:c:x", "m:", "a:b:", "m:s\n"]
 MDPATHS = ["Server/x86_64/os/repodata/a-modules.yaml.gz", "md.yaml"]
-RPMLISTS = [["a-0:1-1.x86_64"], [], ["a-0:1-1.x86_64", "b-0:1-1.noarch"], ["a-0:1-1.x86_64"]]
+RPMLISTS = [["a-0:1-1.x86_64"], [], ["a-0:1-1.x86_64", "b-0:1-1.noarch"], ["a-0:1-1.x86_64"],
+            ["nodejs-10.14.1-1.module_2533.x86_64", "Packages/n/npm-1:6.4.1-1.x86_64.rpm", "pkg1"]]
+
+
+def readd_rpms(rng, ops):
+    """repeat an earlier add with another signing key and path: the later call decides"""
+    if ops and rng.random() < 0.3:
+        op = list(rng.choice(ops))
+        op[4] = rng.choice([None, None, "00AA11BB", ""])
+        op[3] = rng.choice(PATHS)
+        ops.append(op)
+    return ops
 
 
 def gen_modules_op(rng):
@@ -86,6 +97,8 @@ def generate(rng, kind, n, maxops=8):
     cases = []
     for _ in range(n):
         ops = [GEN[kind](rng) for _ in range(rng.randint(1, maxops))]
+        if kind == "rpms":
+            ops = readd_rpms(rng, ops)
         c = {"kind": kind, "ops": ops}
         if kind == "modules" and rng.random() < 0.5:
             # callers often pass ONE list object to several add calls: share it by reference in the implementation run
